@@ -73,6 +73,17 @@ fn check_insert(cfg: &'static dyn Config, lines: &[Line], pos: usize, extra: &Li
         Ok(k) => k,
         Err(why) => return Verdict::Excluded(why),
     };
+    if kind == "rejected" && cfg.name() == "none" {
+        // C17 names form, checksum and sequencing. A fragment refused because the 384-byte buffer is full is
+        // none of these (C18 speaks about it): if the same line is accepted by the std build after the same
+        // prefix, its rejection here is a capacity rejection and the case is not judged.
+        let mut pre: Vec<&Line> = lines[..pos].iter().collect();
+        pre.push(extra);
+        let o = run_all(&STD, &pre);
+        if o.last().map(|x| x.is_ok()).unwrap_or(false) {
+            return Verdict::Excluded("refused for capacity by the no-allocator build (C18's business)");
+        }
+    }
     if kind == "rejected" && extra.decode {
         // an error on a fragment with decoding requested may come from the *payload* of a group it
         // completed - that is not one of the kinds of rejection the statement names. The line
